@@ -13,18 +13,20 @@ import tempfile
 from harness import coqfmt as cf
 
 PROP = "C04"
-COQ = dict(imports=["Spec.C04"], in_ty="input", out_ty="output", corr="corr_C04", decide="check_C04",
-           inclass="inclass_C04", model="txn_run")
+COQ = dict(imports=["Spec.C04"], in_ty="ginput", out_ty="output", corr="corr_C04g", decide="check_C04g",
+           inclass="inclass_C04g", model="txn_run_g")
 THEOREMS = ["C04_decider_sound", "C04_main", "C04_version_rows", "C04_failed_not_recorded", "C04_all_or_nothing",
             "C04_per_migration", "C04_nontransactional", "C04_success", "C04_exception_kind_irrelevant",
-            "C04_inconsistent_refuted"]
+            "C04_inconsistent_refuted", "C04g_decider_sound", "C04g_main", "C04_rows_are_heads",
+            "C04_failed_upgrade_not_implied", "C04_failed_downgrade_still_implied"]
 CASE_TIMEOUT = 60
 TRUSTED = [
     "the database small-step semantics of Model/Txn.v (TxDDL, ImplicitCommitDDL, Pysqlite) and the SQLAlchemy 2.0 autobegin / "
     "commit / rollback / close behaviour it assumes; TxDDL and Pysqlite are validated against SQLite on every run, "
     "ImplicitCommitDDL (MySQL/Oracle) has no backend in this sandbox and is proved in the model only",
-    "bookkeeping statements of a linear history (INSERT first / UPDATE prev->next / DELETE last) are computed by the harness "
-    "and given to the model as input: which rows HeadMaintainer writes is C03, not C04",
+    "the bookkeeping statements of every step are computed inside Coq by the C03 model of HeadMaintainer.update_to_step "
+    "(coq/Model/Heads.v); the history (as loaded by the real ScriptDirectory, with the observed normalised dependencies) and the "
+    "plan of the real _upgrade_revs/_downgrade_revs are inputs of the model (C15/C16 and C01/C02 are about those)",
     "the database state before the command (after the set-up upgrade) is observed and given to the model as its initial state",
 ]
 ASSUME = [
@@ -37,7 +39,7 @@ ASSUME = [
 ]
 RULE = ("exhaustive small scope: {pysqlite default, transactional recipe} x transactional_ddl {True, unset/False} x "
         "transaction_per_migration x caller-held transaction {no,yes} x {upgrade from base, upgrade from r1, downgrade to base, "
-        "downgrade to r1} x linear histories of 1-3 migrations (4 DDL/DML layouts; 7 histories whose upgrade AND downgrade bodies "
+        "downgrade to r1} x linear histories of 1-3 migrations (4 DDL/DML layouts; 6 histories whose upgrade AND downgrade bodies "
         "contain an autocommit_block section, also empty / first / only) x EVERY failure position (before/after each statement, "
         "before and after an autocommit section, before each statement inside it, at its end, and in the on_version_apply "
         "callback after the bookkeeping) plus the run without failure; the exception raised is an Exception subclass, "
@@ -57,7 +59,8 @@ LEVEL_TEXT = ("Machine-checked for every number of migrations, every body, every
               "before the command resp. after the completed migrations. The model is compared exactly with real upgrade/downgrade "
               "runs on SQLite (default pysqlite mode and the transactional recipe) over all small histories and failure positions.")
 LEVEL_NOTE = ("Trusted: Coq kernel+vm_compute, the database/driver semantics (validated on SQLite only), the harness. "
-              "Implicit-commit DDL is proved over the model, not validated against a server. Histories are linear.")
+              "Implicit-commit DDL is proved over the model, not validated against a server. Branched histories are covered "
+              "through the C03 model and theorem (rows = maximal applied revisions of the committed migrations).")
 
 LAYOUTS = [[1, 0], [0, 1], [1, 1], [0]]       # 1 = DDL, 0 = DML ; ("a", [...]) = autocommit section
 A1 = [1, ("a", [0, 1]), 0]
@@ -118,6 +121,9 @@ def _cases_for(revs, tag, all_excs=False, rot=[0]):
         for k, j in enumerate(order):
             body = revs[j - 1]["up" if cmd == "upgrade" else "dn"]
             fails += [[k, "slot", p] for p in range(len(_slots(body)))] + [[k, "cb", 0]]
+        fails = [None if f is None else [order[f[0]], f[1], f[2]] for f in fails]      # [revision, where, slot]
+        pre = "r%d" % frm if frm > 0 else None
+        target = ("r%d" % to) if to > 0 else "base"
         for fail in fails:
             for kind, tddl, tpm, ext in itertools.product(["pysqlite", "txddl"], [True, False], [False, True], [False, True]):
                 if fail is None:
@@ -128,8 +134,38 @@ def _cases_for(revs, tag, all_excs=False, rot=[0]):
                     rot[0] += 1
                     excs = [EXCS[rot[0] % 3]]
                 for exc in excs:
-                    yield {"kind": kind, "tddl": tddl, "tpm": tpm, "external": ext, "cmd": cmd, "from": frm, "to": to,
+                    yield {"kind": kind, "tddl": tddl, "tpm": tpm, "external": ext, "cmd": cmd, "pre": pre, "target": target,
                            "revs": revs, "fail": fail, "exc": exc, "tag": tag}
+
+
+# branched histories: parents (down_revision) and depends_on per revision, body layout per revision
+BRANCHED = {
+    "branch": ([([], []), ([1], []), ([1], [])], [[1], [0], [1, 0]]),
+    "merge": ([([], []), ([1], []), ([1], []), ([2, 3], [])], [[1], [0], [1], [0, ("a", [1])]]),
+    "roots": ([([], []), ([], []), ([1], [])], [[1, 0], [1], [0]]),
+    "depends": ([([], []), ([], [1]), ([2], [])], [[1], [0, 1], [1]]),
+}
+
+
+def _branched_cases(name, rot):
+    parents, lays = BRANCHED[name]
+    revs = _mk_history(lays)
+    for r, (down, deps) in zip(revs, parents):
+        r["down"], r["deps"] = down, deps
+    n = len(revs)
+    plans = [("upgrade", None, "heads"), ("upgrade", "r2", "heads"), ("downgrade", "heads", "base")]
+    if name in ("branch", "merge"):
+        plans.append(("downgrade", "heads", "r1"))
+    for cmd, pre, target in plans:
+        fails = [None]
+        for j in range(1, n + 1):
+            body = revs[j - 1]["up" if cmd == "upgrade" else "dn"]
+            fails += [[j, "slot", p] for p in range(len(_slots(body)))] + [[j, "cb", 0]]
+        for fail in fails:
+            for kind, tddl, tpm, ext in itertools.product(["pysqlite", "txddl"], [True, False], [False, True], [False, True]):
+                rot[0] += 1
+                yield {"kind": kind, "tddl": tddl, "tpm": tpm, "external": ext, "cmd": cmd, "pre": pre, "target": target,
+                       "revs": revs, "fail": fail, "exc": "exc" if fail is None else EXCS[rot[0] % 3], "tag": "branched-" + name}
 
 
 def _template_cases(revs, tag, rot):
@@ -160,15 +196,16 @@ def generate(tier, seed):
     rot = [seed]
     P = LAYOUTS
     hs = [([P[o]], "n1", True) for o in range(4)]
-    hs += [([P[o], P[(o + 1) % 4]], "n2", False) for o in range(4)]
-    hs += [([P[0], P[1], P[2]], "n3", False)]
+    hs += [([P[o], P[(o + 1) % 4]], "n2", False) for o in (0, 2)]
     hs += [([A1], "n1-auto", True), ([A2], "n1-auto", True), ([A3], "n1-auto", True)]
-    hs += [([A1, P[0]], "n2-auto", False), ([P[1], A1], "n2-auto", False), ([A2, A1], "n2-auto", False)]
+    hs += [([A1, P[0]], "n2-auto", False), ([P[1], A1], "n2-auto", False)]
     hs += [([P[0], A1, P[3]], "n3-auto", False)]
     for lays, tag, allx in hs:
         yield from _cases_for(_mk_history(lays), tag, allx, rot)
     for lays, tag, allx in hs:
         yield from _template_cases(_mk_history(lays), tag + "-template", rot)
+    for name in BRANCHED:
+        yield from _branched_cases(name, rot)
     if tier == "thorough":
         rnd = random.Random(seed * 7919 + 4)
         for _ in range(60):
@@ -287,7 +324,7 @@ def _db(s):
 
 def _stmt(st):
     d, what, x = st
-    return "%s (%s %d)" % ("DDL" if d else "DML", "Add" if what == "add" else "Del", x)
+    return "%s (%s %d)" % ("DDL" if d else "DML", "Txn.Add" if what == "add" else "Txn.Del", x)
 
 
 def _coq_body(body, slot):
@@ -312,7 +349,28 @@ def _coq_body(body, slot):
     return cf.lst(items)
 
 
+def _parents(xs):
+    xs = ["r%d" % x for x in xs]
+    return None if not xs else (xs[0] if len(xs) == 1 else tuple(xs))
+
+
+def _normalise(h):
+    """corpus / replay files written before the plan was taken from the real planner: linear history, from/to, fail by position"""
+    if "pre" in h:
+        return h
+    h = dict(h)
+    frm, to = h.pop("from"), h.pop("to")
+    order = list(range(frm + 1, to + 1)) if h["cmd"] == "upgrade" else list(range(frm, to, -1))
+    h["pre"] = "r%d" % frm if frm > 0 else None
+    h["target"] = ("r%d" % to) if to > 0 else "base"
+    if h.get("fail") is not None:
+        k, where, p = h["fail"]
+        h["fail"] = [order[k], "cb" if where == "cb" else "slot", p]
+    return h
+
+
 def run_case(h):
+    h = _normalise(h)
     import logging
     import sqlite3
     import warnings
@@ -345,12 +403,13 @@ def run_case(h):
             vdir = os.path.join(d, "versions")
         for j, r in enumerate(revs, 1):
             open(os.path.join(vdir, "r%d.py" % j), "w").write(
-                "from alembic import op, context\nrevision = 'r%d'\ndown_revision = %r\n\n"
+                "from alembic import op, context\nrevision = 'r%d'\ndown_revision = %r\ndepends_on = %r\n\n"
                 "def _f(direction, p):\n"
                 "    f = context.config.attributes.get('fail')\n"
                 "    if f and f[0] == revision and f[1] == direction and f[2] == p:\n"
                 "        raise context.config.attributes['exc']('boom')\n\n%s\n%s" % (
-                    j, ("r%d" % (j - 1)) if j > 1 else None, _fn("upgrade", "up", r["up"]), _fn("downgrade", "dn", r["dn"])))
+                    j, _parents(r.get("down", [j - 1] if j > 1 else [])), _parents(r.get("deps", [])),
+                    _fn("upgrade", "up", r["up"]), _fn("downgrade", "dn", r["dn"])))
         path = os.path.join(d, "db.sqlite")
         url = "sqlite:///" + path
         con = sqlite3.connect(path)
@@ -372,7 +431,7 @@ def run_case(h):
             return c
 
         # set-up: bring the database to the starting revision (a run without failure, default settings)
-        if h["from"] > 0:
+        if h["pre"] is not None:
             if template:          # set-up with the harness's own env.py, in a second script directory over the same versions
                 c0 = Config()
                 s0 = os.path.join(d, "setup")
@@ -385,21 +444,32 @@ def run_case(h):
             else:
                 c0 = cfg(None)
             c0.attributes.update(tpm=True, tddl=None, external=False)
-            command.upgrade(c0, "r%d" % h["from"])
+            command.upgrade(c0, h["pre"])
         before = _state(url)
 
         up = h["cmd"] == "upgrade"
-        order = list(range(h["from"] + 1, h["to"] + 1)) if up else list(range(h["from"], h["to"], -1))
+        # the plan of the REAL planner (C01/C02) and the history as the REAL loader sees it (C15/C16): inputs of the model
+        from alembic.script import ScriptDirectory
+        script = ScriptDirectory.from_config(cfg(None))
+        heads0 = tuple("r%d" % x for x in before["rows"])
+        plan = list(script._upgrade_revs(h["target"], heads0) if up else script._downgrade_revs(h["target"], heads0))
+        order = [(int(st.revision.revision[1:]), bool(st.is_upgrade)) for st in plan]
+        num = lambda xs: [int(x[1:]) for x in xs]
+        graph = []
+        for j in range(1, len(revs) + 1):
+            r = script.revision_map.get_revision("r%d" % j)
+            graph.append({"id": j, "down": num(r._versioned_down_revisions), "deps": sorted(num(r._resolved_dependencies)),
+                          "ndeps": num(r._normalized_resolved_dependencies)})
         fail = None
         if h["fail"] is not None:
-            k, where, p = h["fail"]
-            fail = ("r%d" % order[k], "up" if up else "dn", "cb" if where == "cb" else p)
+            j, where, p = h["fail"]
+            fail = ("r%d" % j, "up" if up else "dn", "cb" if where == "cb" else p)
         raised = None
         try:
             if up:
-                command.upgrade(cfg(fail), "r%d" % h["to"])
+                command.upgrade(cfg(fail), h["target"])
             else:
-                command.downgrade(cfg(fail), "r%d" % h["to"] if h["to"] > 0 else "base")
+                command.downgrade(cfg(fail), h["target"])
         except Boom:
             raised = "Boom"
         except KeyboardInterrupt:
@@ -414,32 +484,31 @@ def run_case(h):
 
     steps = []
     has_auto = False
-    for k, j in enumerate(order):
-        body = revs[j - 1]["up" if up else "dn"]
+    for j, isup in order:
+        body = revs[j - 1]["up" if isup else "dn"]
         has_auto = has_auto or any(it[0] == "a" for it in body)
         slot, cb = None, False
-        if h["fail"] is not None and h["fail"][0] == k:
+        if h["fail"] is not None and h["fail"][0] == j:
             if h["fail"][1] == "cb":
                 cb = True
             else:
                 slot = _slots(body)[h["fail"][2]]
-        if up:
-            ver = "VIns %d" % j if j == 1 else "VUpd %d %d" % (j - 1, j)
-        else:
-            ver = "VDel %d" % j if j == 1 else "VUpd %d %d" % (j, j - 1)
-        steps.append("mkStep %s [%s] %s" % (_coq_body(body, slot), ver, cf.boolean(cb)))
+        steps.append("mkMstep %d %s %s %s" % (j, cf.boolean(isup), _coq_body(body, slot), cf.boolean(cb)))
     eff_tddl = bool(h["tddl"])          # SQLiteImpl.transactional_ddl = False unless overridden
-    cin = "(mkIn %s %s %s %s %s %s %s)" % (
-        "TxDDL" if h["kind"] == "txddl" else "Pysqlite", cf.boolean(eff_tddl), cf.boolean(h["tpm"]),
+    cin = "(mkGin %s %s %s %s %s %s %s %s)" % (
+        cf.graph(graph), "TxDDL" if h["kind"] == "txddl" else "Pysqlite", cf.boolean(eff_tddl), cf.boolean(h["tpm"]),
         cf.boolean(h["external"]), cf.lst(steps), _db(before),
         {"exc": "ExcException", "kbd": "ExcKeyboardInterrupt", "exit": "ExcSystemExit"}[h.get("exc", "exc")])
+    ran = h["fail"] is not None and any(j == h["fail"][0] for j, _ in order)
     cout = "(mkOut %s %s)" % (_db(after), cf.boolean(raised is not None))
     one = h["external"] or (eff_tddl and not h["tpm"])
-    shape = "%s%s-%s-%s%s-%s" % ("generic-template-" if h.get("env") == "template" else "", h["kind"], h["cmd"], "one-txn" if one else "per-migration", "-autocommit" if has_auto else "",
-                               "ok" if h["fail"] is None else ("fail-cb" if h["fail"][1] == "cb" else "fail-body") +
+    shape = "%s%s%s-%s-%s%s-%s" % ("generic-template-" if h.get("env") == "template" else "",
+                                   "branched-" if h["tag"].startswith("branched") else "", h["kind"], h["cmd"],
+                                   "one-txn" if one else "per-migration", "-autocommit" if has_auto else "",
+                               "ok" if not ran else ("fail-cb" if h["fail"][1] == "cb" else "fail-body") +
                                ("" if h.get("exc", "exc") == "exc" else "-BaseException"))
     return dict(cin=cin, cout=cout, out={"before": before, "after": after, "raised": raised},
-                nontrivial=h["fail"] is not None, shape=shape)
+                nontrivial=ran, shape=shape)
 
 
 def classify(human, out):
